@@ -57,8 +57,7 @@ func (c *Ctx) ruleRatchets(cid string) {
 	c.ruleCallRatchet("E6.call-ratchet", pkgs, filter, "baselines/calls.json", 5)
 	c.ruleOrderRatchet("E6.order-ratchet", pkgs, filter, "baselines/calls.json", 5)
 	c.ruleConditionRatchet("E6.condition-ratchet", pkgs, filter, "baselines/conds.json", 5)
-	c.ruleExitRatchet("E6.exit-ratchet", pkgs, filter, "baselines/calls.json", 5)
 }
 
 // RatchetExpl is appended to every property's explanation: ruleRatchets runs for all of them.
-const RatchetExpl = " In addition, over every function of the files the property is anchored in, five ratchets compare the tree with the committed, reviewed baselines (baselines/*.json, never written at run time): (E4.case-ratchet) no switch lost a named case; (E6.call-ratchet) no function lost a callee or field store, or one of several call sites of the same callee, that it does not now reach through a newly called helper; (E6.order-ratchet) in a function that still performs the same calls and stores, no two of them changed places in the strict control-flow order; (E6.condition-ratchet) in a function with the same number of conditional branches, each recorded comparison is still made; (E6.exit-ratchet) a function with the same calls has not gained an early return. Each ratchet declines to decide (discharges with the reason) when the function's shape changed beyond what it can compare."
+const RatchetExpl = " In addition, over every function of the files the property is anchored in, four ratchets compare the tree with the committed, reviewed baselines (baselines/*.json, never written at run time): (E4.case-ratchet) no switch lost a named case; (E6.call-ratchet) no function lost a callee or field store, or one of several distinct sites of the same callee (distinct by receiver and arguments), that it does not now reach through a newly called helper; (E6.order-ratchet) in a function that still performs the same calls and stores, no two of them changed places in the strict control-flow order; (E6.condition-ratchet) in a function with the same number of comparisons, none was replaced by a point mutation of itself (another constant, another field, a moved boundary). Each ratchet declines to decide (discharges with the reason) when the function's shape changed beyond what it can compare."
